@@ -64,6 +64,10 @@ func runC02(c *Ctx) {
 	// ---- R5
 	r5 := c.Rule("R5", "every loop has a termination argument (range, counting, child cursor, shrinking worklist)", 20)
 	c02Loops(c, r5, scope)
+
+	// ---- R6
+	r6 := c.Rule("R6", "index and slice expressions outside the lexer are in bounds (abstract interpretation)", 400)
+	c02IndexSafety(c, r6, nil)
 }
 
 func c02Assumptions() map[string]string {
